@@ -207,6 +207,7 @@ type Interp struct {
 	leafCache       map[int64]map[uint64]bool
 	sqlPools        []*sqlPool
 	sqlFaults       bool
+	sqlInjected     int
 	sqlTexts        map[string]bool
 	jsonSeq         int
 	jsonToks        map[int]*jsonTok
@@ -539,7 +540,7 @@ func (it *Interp) callValue(g *G, fr *Frame, fnv Value, args []Value, cc *ssa.Ca
 	fn := cl.Fn
 	if h, name := it.lookupIntercept(fn); h != nil {
 		it.stubsSeen[name] = true
-		res, st := h(it, g, fr, args, cc)
+		res, st := it.callIntrinsic(h, g, fr, args, cc)
 		if st == stOK && dst != nil {
 			it.set(fr, dst, res)
 		}
@@ -990,4 +991,17 @@ func isPathEnd(r any, kinds ...string) bool {
 		}
 	}
 	return false
+}
+
+// callIntrinsic runs an intrinsic and turns a nil-statement use into the panic the real library would raise.
+func (it *Interp) callIntrinsic(h Intrinsic, g *G, fr *Frame, args []Value, cc *ssa.CallCommon) (res Value, st status) {
+	defer func() {
+		if r := recover(); r != nil {
+			if _, ok := r.(nilStmtUse); ok {
+				it.fault("panic", "nil-deref", "method called on a nil *sqlite.Stmt (Prepare failed and its error was ignored)", fr)
+			}
+			panic(r)
+		}
+	}()
+	return h(it, g, fr, args, cc)
 }
